@@ -167,6 +167,11 @@ def _hist_data():
     return out
 
 
+def TINY_EXCESS(n):
+    """Entries outside [0,1] by less than any plausible tolerance: the range test is exact, not approximate."""
+    return ((0, 0, -1e-10), (n - 1, 1, float(np.nextafter(1.0, 2.0))), (0, 1, 1 + 5e-8), (n - 1, 0, -5e-8))
+
+
 def run_case(case):
     from mc.ref import kendall as K
     kind = case[0]
@@ -180,7 +185,7 @@ def run_case(case):
                 r.state((n, idx, mapping, fam))
                 if n <= 3 and mapping == 'open':
                     # every small array with one entry pushed out of [0,1] must be refused
-                    for (i, j, bad) in ((0, 0, -0.01), (n - 1, 1, 1.01), (0, 1, 1.7)):
+                    for (i, j, bad) in ((0, 0, -0.01), (n - 1, 1, 1.01), (0, 1, 1.7)) + TINY_EXCESS(n):
                         Y = X.copy()
                         Y[i, j] = bad
                         _check_fit(r, fam, Y, case, f'n={n} pattern#{idx} with entry [{i},{j}]={bad}')
@@ -194,7 +199,7 @@ def run_case(case):
         for fam in FAMS:
             _check_fit(r, fam, X, case, f'designed n={n} tau~{t}')
             r.state(('designed', t, fam))
-            for bad in (-0.01, 1.01):
+            for bad in (-0.01, 1.01, float(np.nextafter(1.0, 2.0)), 1 + 1e-9, 1 + 5e-8, -1e-10, -5e-8, -5e-324):
                 Y = X.copy()
                 Y[n // 3, 1 if bad > 1 else 0] = bad
                 _check_fit(r, fam, Y, case, f'designed n={n} tau~{t} with one entry {bad}')
